@@ -10,10 +10,12 @@ pub mod c03;
 pub mod c04;
 pub mod c05;
 pub mod c07;
+pub mod c08;
 pub mod c10;
 pub mod c11;
 pub mod c12;
 pub mod c13;
+pub mod c14;
 pub mod c15;
 pub mod c16;
 pub mod c17;
@@ -61,10 +63,12 @@ pub fn check(case: &Case, out: &RunOutput) -> Verdict {
         Family::C04 => c04::check(&v, &mut vd),
         Family::C05 => c05::check(&v, &mut vd),
         Family::C07 => c07::check(&v, &mut vd),
+        Family::C08 => c08::check(&v, &mut vd),
         Family::C10 => c10::check(&v, &mut vd),
         Family::C11 => c11::check(&v, &mut vd),
         Family::C12 => c12::check(&v, &mut vd),
         Family::C13 => c13::check(&v, &mut vd),
+        Family::C14 => c14::check(&v, &mut vd),
         Family::C15 => c15::check(&v, &mut vd),
         Family::C16 => c16::check(&v, &mut vd),
         Family::C17 => c17::check(&v, &mut vd),
